@@ -143,7 +143,7 @@ def main():
     n_tr = sum(1 for c in cases if c.startswith('TR\t'))
     n_e = sum(1 for c in cases if c.startswith('E\t'))
     ref_digests = n_sh * len(HT) + n_tr * 256
-    run.evaluations = ref_digests + n_e + sum(stats.get(k, 0) for k in ('cached_digest_comparisons', 'mutations_committed', 'mutations_uncommitted', 'signature_bit_flips', 'other_hashtype_bytes', 'misc_signature_checks'))
+    run.evaluations = ref_digests + n_e + sum(stats.get(k, 0) for k in ('cached_digest_comparisons', 'mutations_committed', 'mutations_uncommitted', 'signature_bit_flips', 'other_hashtype_bytes', 'misc_signature_checks', 'caching_checker_evaluations'))
     run.extra['reference_batches_completed'] = f'{done_batches}/{len(batches)}'
     run.extra['reference_digests'] = ref_digests
     run.extra['reference_verified_signatures'] = n_e
@@ -154,7 +154,7 @@ def main():
     run.distinct = stats.get('distinct_verdict_classes', 0) + n_sh + n_tr
     problems = []
     if len(kinds) != 12: problems.append(f'only {len(kinds)} spend kinds accepted')
-    for s in ('mutations_committed', 'mutations_uncommitted', 'signature_bit_flips', 'other_hashtype_bytes', 'accepted_baselines', 'cached_digest_comparisons', 'unsignable_taproot_single'):
+    for s in ('caching_checker_accepts', 'caching_checker_rejects', 'mutations_committed', 'mutations_uncommitted', 'signature_bit_flips', 'other_hashtype_bytes', 'accepted_baselines', 'cached_digest_comparisons', 'unsignable_taproot_single'):
         if stats.get(s, 0) == 0: problems.append('stat ' + s + ' is 0')
     if not n_sh or not n_tr or not n_e: problems.append('missing line kinds')
     if problems and not run.violations and not incomplete:
@@ -167,7 +167,7 @@ def main():
             '(with/without OP_CODESEPARATOR, 0xab in push data, >252 bytes) for legacy and BIP143, every byte x key/script path x annex x codeseparator position for BIP341, all compared with script.py; '
             'soundness layer: 12 spend kinds (p2pk, p2pkh, codeseparator, FindAndDelete, p2sh, p2wpkh, p2wsh, p2wsh+codeseparator, taproot key/script path with/without annex) x hash types, '
             'real signature must verify (C++ and Python verifier on the reference digest), every single field mutation must flip the verdict iff the commitment table says so, every signature bit flip / '
-            'other hash-type byte / wrong key / empty signature rejected, high-S accepted iff LOW_S unset. distinct = digest lines + distinct (kind,hashtype,mutation,own/other,verdict) classes')
+            'other hash-type byte / wrong key / empty signature rejected, high-S accepted iff LOW_S unset; every one of these evaluations is repeated through CachingTransactionSignatureChecker (store=true twice, store=false once, one SignatureCache per spend kind) and must give the verdict of the plain checker each time. distinct = digest lines + distinct (kind,hashtype,mutation,own/other,verdict) classes')
     return run.finish(rule=rule, exhaustive=not incomplete)
 
 
